@@ -528,13 +528,27 @@ func throttle(r *rep.Report, rng *rand.Rand, n int) {
 		pause := time.Duration(1+rng.Intn(10)) * time.Millisecond
 		submitters := 8 + rng.Intn(56)
 		ob, _ := core.NewOutboundBreaker(limit, interval)
-		b := &probe{Breaker: ob, first: map[int64]time.Time{}, last: map[int64]time.Time{}}
+		// the breaker behind the throttle: the outbound breaker, a load-probe breaker (open for the first
+		// milliseconds of the run, i.e. load over the limit, then closed), or the combination of both
+		var load int64 = 10
+		sb := core.NewSimpleBreaker(func() (float64, error) { return float64(atomic.LoadInt64(&load)), nil }, 1)
+		breakerKind := []string{"outbound", "outbound", "load-probe", "combo"}[(run/4)%4]
+		var inner core.Breaker = ob
+		switch breakerKind {
+		case "load-probe":
+			inner = sb
+		case "combo":
+			inner = core.NewComboBreaker(ob, sb)
+		}
+		time.AfterFunc(time.Duration(2+rng.Intn(6))*time.Millisecond, func() { atomic.StoreInt64(&load, 0) })
+		b := &probe{Breaker: inner, first: map[int64]time.Time{}, last: map[int64]time.Time{}}
 		t, _ := core.NewThrottle(attempts, pendingLimit, pause, b)
 		// the Disable switches: on the throttle's breaker, on the throttle itself, or neither
 		mode := []string{"", "", "breaker-disabled", "throttle-disabled"}[run%4]
 		switch mode {
 		case "breaker-disabled":
 			ob.Disable(true)
+			sb.Disable(true)
 		case "throttle-disabled":
 			t.Disable(true)
 		}
@@ -586,7 +600,7 @@ func throttle(r *rep.Report, rng *rand.Rand, n int) {
 		sw.Wait()
 		pend, _ := t.Pending()
 		overflowed := false
-		wit := rep.J{"kind": "throttle", "disable_switch": mode, "limit": limit, "interval_ms": interval.Milliseconds(), "pendingLimit": pendingLimit, "attempts": attempts, "submitters": submitters, "max_pending_seen": maxPending, "pending_after": pend}
+		wit := rep.J{"kind": "throttle", "breaker": breakerKind, "disable_switch": mode, "limit": limit, "interval_ms": interval.Milliseconds(), "pendingLimit": pendingLimit, "attempts": attempts, "submitters": submitters, "max_pending_seen": maxPending, "pending_after": pend}
 		for s := range res {
 			if res[s] == "overflow" {
 				overflowed = true
